@@ -541,7 +541,9 @@ public:
 
     Matrix eigenvectors()
     {
-        return m_evectors;
+        // The eigenvectors are the columns of the iterate X; m_evectors holds the
+        // coefficients of the last Rayleigh-Ritz step
+        return Matrix(X);
     }
 
     Matrix residuals()
